@@ -10,6 +10,7 @@ from props import _delta as D
 
 ID = "C07"
 THEOREMS = [
+    "C07_delta_size_limit_tied",
     "C07_each_once", "C07_base_before_delta", "C07_resolves", "C07_new_deltas_ok", "C07_acyclic_keeps_deltas", "C07_fuel_sufficient",
     "C07_entry_head_roundtrip", "C07_ofs_roundtrip",
     "C07_depth_bound", "C07_depth_bound_chains_partial", "C07_depth_bound_chains_refuted", "C07_selector_resolves", "C07_window_0_1",
